@@ -87,6 +87,57 @@ class RunNamedReset(object):
         self.total = 10 ** 6
 
 
+class _Odd(object):
+    """Values whose comparison is unusual but legal: == answers with a non-bool, with True for
+    everything, or raises (symbolic expressions, mock.ANY, arrays)."""
+
+    def __init__(self, tag):
+        self.tag = tag
+
+    def __repr__(self):
+        return "<%s>" % self.tag
+
+    __hash__ = object.__hash__
+
+
+class EqEverything(_Odd):
+    def __eq__(self, other):
+        return True
+
+    def __ne__(self, other):
+        return False
+
+    __hash__ = object.__hash__
+
+
+class EqNonBool(_Odd):
+    def __eq__(self, other):
+        return ["elementwise", "comparison"]
+
+    __hash__ = object.__hash__
+
+
+class EqRaises(_Odd):
+    def __eq__(self, other):
+        raise ValueError("the truth value of a comparison with %r is ambiguous" % (self,))
+
+    __hash__ = object.__hash__
+
+    def __bool__(self):
+        raise ValueError("the truth value of %r is ambiguous" % (self,))
+
+
+def _tagview(x):
+    """Comparable picture of results that may hold _Odd values (compared by identity tag)."""
+    if isinstance(x, _Odd):
+        return "odd:" + x.tag
+    if isinstance(x, tuple):
+        return ("T",) + tuple(_tagview(y) for y in x)
+    if isinstance(x, list):
+        return [_tagview(y) for y in x]
+    return x
+
+
 class OnlyIter(object):
     """A re-iterable flow container that is not a sequence (only __iter__)."""
 
@@ -309,6 +360,11 @@ def cases(tier, seed):
                 for post in [False, True]:
                     yield {"k": "frseq", "n": n, "reset": reset, "pre": pre, "post": post,
                            "nmax": 9}
+    # long flows: many blocks buffered between two requests (Split's default bufsize is 1000)
+    for kind in ["fc_sum", "fr_store"]:
+        for n in (1, 2, 7):
+            for mode in ["in", "out"]:
+                yield {"k": "long", "kind": kind, "n": n, "mode": mode}
     yield {"k": "init"}
 
 
@@ -475,8 +531,15 @@ def run_case(r, obs):
         obs.nontrivial = True
         for N in range(1, 7):
             for p in range(N):
-                for special in (None, 0, False, "", ()):
+                for special in (None, 0, False, "", (), "eq-everything", "eq-nonbool",
+                                "eq-raises"):
                     xs = list(range(1, N + 1))
+                    odd = isinstance(special, str) and special.startswith("eq-")
+                    if odd:
+                        if kind in ("fc_count", "fr_inner") or N > 4:
+                            continue
+                        special = {"eq-everything": EqEverything, "eq-nonbool": EqNonBool,
+                                   "eq-raises": EqRaises}[special](special)
                     xs[p] = special
                     exp = model_run(kind, n, reset, yor, xs)
                     fr = make_fr(kind, n, mode, reset, yor)
@@ -488,11 +551,16 @@ def run_case(r, obs):
                         obs.fail("run:%s:buffer_%s:nontermination" % (kind.split("_")[0], mode),
                                  "run(%r): %s" % (xs, e))
                         continue
+                    except Exception as e:  # pylint: disable=broad-except
+                        if not odd:
+                            raise
+                        got = "raised %r" % (e,)
                     obs.count("oracle_evaluations")
-                    if got != exp:
+                    if _tagview(got) != _tagview(exp):
                         at = "block-start" if p % n == 0 else "inside-a-block"
-                        obs.fail("run:%s:buffer_%s%s:false-or-None-value-at-%s"
-                                 % (kind.split("_")[0], mode, ":yor" if yor else "", at),
+                        obs.fail("run:%s:buffer_%s%s:%s-value-at-%s"
+                                 % (kind.split("_")[0], mode, ":yor" if yor else "",
+                                    "unusual-__eq__" if odd else "false-or-None", at),
                                  "FillRequest(%s, bufsize=%d, buffer_%sput, reset=%s, "
                                  "yield_on_remainder=%s).run(iter(%r)) = %r, block model gives %r"
                                  % (kind, n, mode, reset, yor, xs, got, exp))
@@ -673,6 +741,39 @@ def run_case(r, obs):
                                   "FillRequest(%s, bufsize=%d, buffer_%sput, reset=%s)], bufsize=%r)"
                                   ".run(%r): the last branch gives %r, block model gives %r"
                                   % (stop_at, stop_at, kind, n, mode, reset, b, xs, got2, exp))
+    elif k == "long":
+        kind, n, mode = r["kind"], r["n"], r["mode"]
+        obs.nontrivial = True
+        for N in (999, 1000, 1001, 2001, 2600):
+            xs = list(range(1, N + 1))
+            exp = model_run(kind, n, True, False, xs)
+            for how in ("split-default-bufsize", "split-unbounded", "fill-all-then-request", "run"):
+                fr = make_fr(kind, n, mode, True, False)
+                obs.count("split_executions")
+                try:
+                    with _guard(obs, 600 * (N + 2) + 3000):
+                        if how == "split-default-bufsize":
+                            got = list(lena.core.Split([fr]).run(iter(xs)))
+                        elif how == "split-unbounded":
+                            got = list(lena.core.Split([fr], bufsize=None).run(iter(xs)))
+                        elif how == "run":
+                            got = list(fr.run(iter(xs)))
+                        else:
+                            for x in xs:
+                                fr.fill(x)
+                            got = list(fr.request())
+                except StepBudgetExceeded as e:
+                    obs.fail("long:buffer_%s:nontermination" % mode, "%s: %s" % (how, e))
+                    continue
+                except Exception as e:  # pylint: disable=broad-except
+                    got = "raised %s" % type(e).__name__
+                obs.count("oracle_evaluations")
+                obs.check(got == exp, "long-flow:buffer_%s:%s" % (
+                    mode, "raises" if isinstance(got, str) else classify_diff(got, exp, xs, n)),
+                          "FillRequest(%s, bufsize=%d, buffer_%sput, reset=True) driven by %s over "
+                          "%d values gives %s, block model gives %d results"
+                          % (kind, n, mode, how, N,
+                             got if isinstance(got, str) else "%d results" % len(got), len(exp)))
     elif k == "frseq":
         n, reset, pre, post = r["n"], r["reset"], r["pre"], r["post"]
 
@@ -812,3 +913,6 @@ RULE += (' Added: a run element whose reset method is given through reset_name (
          'unrelated method called reset); FillRequest as an element of a Sequence / Source run over '
          'a dict, a dict view and an object that only has __iter__; a FillRequest branch of Split '
          'after branches that signal LenaStopFill in the middle of the flow.')
+RULE += (' Added: values whose == answers with a non-bool / True for everything / raises, at every '
+         'flow position; flows of 999..2600 values (hundreds to thousands of blocks buffered between '
+         'two requests, Split with its default bufsize).')
